@@ -1,7 +1,7 @@
 --------------------------- MODULE SVDDecompTrace ---------------------------
 (* C09 trace validation.  One event = one call of tucker / tensor_train / tensor_train_matrix /       *)
 (* tensor_ring of the real tensorly code:                                                            *)
-(*   e.cfg  = [op, shape, rank, mode]      e.svd, e.iters (tucker only, else 0)                      *)
+(*   e.cfg  = [op, shape, rank, mode]      e.svd, e.iters (tucker only, else 0), e.dtype of the input   *)
 (*   e.ten  = [op |-> "matching", shape, idx, vals]  (exact tier; e.data = the entries fed to the     *)
 (*            code) or [op |-> "measured", shape, fam] with e.tails = measured tails of the           *)
 (*            unfoldings relative to ||X||^2 (scale 10^8)                                              *)
@@ -27,6 +27,8 @@ MeasuredOK(e) ==
 
 InDomain(e) ==
     /\ ValidCfg(e.cfg)
+    /\ e.dtype \in Dtypes
+    /\ (e.dtype \in {"int64", "int32"} => e.ten.op = "matching" \/ e.ten.fam \in IntegerFams)
     /\ e.svd \in Svds /\ e.iters \in Iters \cup {0} /\ (e.cfg.op # "tucker" => e.iters = 0)
     /\ IF e.ten.op = "matching"
        THEN /\ ValidMatching(e.ten) /\ e.ten.shape = e.cfg.shape /\ e.data = DataOf(e.ten)
@@ -44,8 +46,8 @@ Verdict(e) ==
     ELSE LET tails == IF e.ten.op = "matching" THEN ExactTails(e.cfg, e.ten) ELSE e.tails
              lb == LowerBound(e.cfg, tails)
              ub == UpperBound(e.cfg, tails)
-             sl == Slack(NUnf(e.cfg))
-         IN  IF ub = 0 /\ e.out.err2_q > sl THEN "ExactAtSufficientRank"
+             sl == SlackFor(NUnf(e.cfg), e.dtype)
+         IN  IF ub = 0 /\ e.out.err2_q > Slack(NUnf(e.cfg)) THEN "ExactAtSufficientRank"
              ELSE IF e.out.err2_q < lb - sl THEN "LowerBound"
              ELSE IF e.out.err2_q > ub + sl THEN "UpperBound"
              ELSE "ok"
